@@ -30,7 +30,7 @@ def main(tier):
                            precs=("d", "s", "z", "c"), threads=(1, 2, 3, 4, 8, 16), nmax=24 if quick else 60, pert=30)
     # the solve itself as a state machine: the sweeps of ?gstrs / sp_?trsv over the supernodes (SluSolve.tla); every real solve call of
     # the histories above was compared with it (apicheck.judge_solves); here the machine is model-checked on all small structures
-    sens_ok = solve.check_models(ck, os.path.join(ck.dir, "solvemodel"), 4 if quick else 5)
+    sens_ok = solve.check_models(ck, os.path.join(ck.dir, "solvemodel"), 4)
     rc = ck.finish()
     if not sens_ok:
         print("SELFTEST-FAIL: SluSolve accepts sweeps over ill-formed structures: %s" % ck.notes.get("solve_model_ill_formed_structures_rejected"))
